@@ -175,6 +175,10 @@ class Ctx:
             print(f"  sig={json.dumps(jsonable(p.sig), sort_keys=True)} cases={len(ps)}")
             print(f"  {str(p.detail)[:600]}")
         cov = dict(self.cov)
+        for k in ("evaluations", "distinct_nontrivial", "states", "transitions", "traces_validated_against_impl",
+                  "obligations", "discharged", "programs", "disagreements_checked"):
+            if k in cov and not (isinstance(cov[k], int) and not isinstance(cov[k], bool)):
+                raise HarnessError(f"evidence key {k!r} is reserved for an integer count by EVIDENCE.schema.json")
         cov.setdefault("samples", self.samples or [{"note": "no sample recorded"}])
         if self.capped:
             cov["exhaustive"] = False
